@@ -744,7 +744,7 @@ pub fn oracle(ctx: &mut Ctx) {
         // one case in ten also through the executable (the same option values asked for on the command line, result on
         // standard output): the property is the user's, whichever door the file comes in by
         if bin_dir.is_some() && rng.chance(1, 10) {
-            if let Some(out_cli) = crate::cli::run_case_via_binary(bin_dir.as_ref().unwrap(), &case.input, &case.opts) {
+            if let Some(out_cli) = crate::cli::run_case_via_binary(bin_dir.as_ref().unwrap(), &case.input, &case.opts, rng.next_u64()) {
                 st.count("cases_through_the_executable");
                 let c2 = Case { img: case.img.clone(), class: format!("{} [through the executable, --stdout]", case.class), enc: case.enc.clone(), input: case.input.clone(), opts: case.opts.clone() };
                 judge(&prop, &c2, &out_cli, &mut st);
